@@ -45,7 +45,7 @@ P('C10', ['sess.*', 'cookie'], ['login', 'remember', 'expire'], ['core', 'full']
 P('C19', ['db.ex', 'db.pw', 'db.arb', 'db.conf', 'db.cTok', 'db.extra', 'sess.uid', 'resp.class', 'resp.loc', 'resp.mails'],
   ['register'], ['core', 'full'], foot_acts=['RegisterPost'])
 
-P('C17', ['resp.mails', 'db.arb'], ['recover', 'register', 'tfasetup'], ['core', 'full'], fam_consts={'tfasetup': {'MaxDepth': 5}})
+P('C17', ['resp.mails', 'db.arb'], ['recover', 'register', 'tfasetup', 'remember'], ['core', 'full'], fam_consts={'tfasetup': {'MaxDepth': 5}})
 PROPS['C17']['assumptions'] = PROPS['C17']['assumptions'] + [
     'the scanner looks for every plaintext secret the harness typed or was shown (passwords incl. a bcrypt-shaped one, one-time passwords, '
     'recovery codes, remember cookies, mailed tokens; raw, base64 std/url, hex, URL-escaped, and decoded token bytes) in every stored string '
